@@ -190,6 +190,16 @@ class CodecCheck:
         ucases = absyn.universe(self.universe_fields[1] if thorough else self.universe_fields[0])
         for m in self.mc_models:
             run_mc(rep, m, ucases)
+        if "MC_Reader" in self.mc_models:
+            # negative control: the reader that aligns on the absolute stream position (before F35) must violate ReaderIsDecode
+            p = write_universe(ucases if thorough else ucases[:120])
+            try:
+                neg = tlc.run(os.path.join(MC, "MC_Reader.tla"), os.path.join(MC, "MC_Reader_neg.cfg"), env={"UNIVERSE_FILE": p}, workers=16, heap="16g")
+            finally:
+                os.unlink(p)
+            if "ReaderIsDecode" not in neg.violated:
+                raise MachineryError("negative control MC_Reader_neg did not violate ReaderIsDecode: the model is vacuous")
+            rep.extra["negative_control_reader"] = "MC_Reader_neg (alignment from the absolute stream position, finding F35) violates ReaderIsDecode as expected"
         if "MC_Writer" in self.mc_models and thorough:
             # negative control: the writer of seeded change S03 (no alignment for bit-fields at a dynamic offset) must violate WriterIsEnc
             p = write_universe(ucases)
